@@ -24,6 +24,7 @@ def run(ctx):
     k_mix(ctx, K)
     k_roundtrip(ctx, K)
     flow.f1(ctx, PATH_METHODS)
+    flow.f_defaults(ctx)
     same_helper(ctx)
     order.flag_accumulates(ctx)     # joinpath(a, b) == joinpath(a).joinpath(b): every argument's dots are seen
     m = ctx.model
